@@ -10,7 +10,7 @@ import (
 	"verif/engine"
 )
 
-var c06Kinds = []string{"used-field-type", "unused", "used-annotation", "used-new", "used-static-receiver", "used-catch", "used-generic-arg", "wildcard", "static-used", "static-unused", "unused-second", "used-throws",
+var c06Kinds = []string{"used-field-type", "unused", "used-annotation", "used-new", "used-new-of-nested-type", "used-static-receiver", "used-catch", "used-generic-arg", "wildcard", "static-used", "static-unused", "unused-second", "used-throws",
 	"used-static-field", "used-method-reference", "used-nested-receiver", "used-class-literal", "used-cast", "used-instanceof", "used-extends", "used-implements", "used-parameter-type", "used-return-type", "used-local-type", "used-array-type", "used-static-constant-in-expression", "used-annotation-argument", "wildcard-then-used-single-of-same-package", "used-single-then-wildcard-of-same-package", "unused-single-after-wildcard-of-same-package"}
 
 type c06File struct {
@@ -85,6 +85,10 @@ func c06Build(c *engine.C, idx int) c06File {
 		case "used-new":
 			add("import lib.Made" + u + ";")
 			body = append(body, "    private Object made"+u+" = new Made"+u+"();")
+		case "used-new-of-nested-type":
+			// the import is referenced only as the outer name of a created nested type
+			add("import lib.Nest" + u + ";")
+			body = append(body, "    private Object nested"+u+" = new Nest"+u+".Inner(1);")
 		case "used-static-receiver":
 			add("import lib.Util" + u + ";")
 			body = append(body, "    void call"+u+"() {\n        Util"+u+".go();\n    }")
